@@ -150,4 +150,241 @@ theorem selRecursion_selNest (n f remaining : Nat) (hf : n + 1 ≤ f) :
     simp [selNest, Pair.inner, listMax, selNest_rule, h]
     omega
 
+
+-- ------------------------------------------------------------------ the pest descent on nested lists
+
+section Descent
+open AGV.Model.Peg AGV.Gen.Grammar
+local notation "G" => AGV.Gen.Grammar.grammar
+
+theorem find_variable : findRule G "variable" = some r_variable := by rfl
+theorem find_number : findRule G "number" = some r_number := by rfl
+theorem find_float : findRule G "float" = some r_float := by rfl
+theorem find_int : findRule G "int" = some r_int := by rfl
+theorem find_string : findRule G "string" = some r_string := by rfl
+theorem find_boolean : findRule G "boolean" = some r_boolean := by rfl
+theorem find_null : findRule G "null" = some r_null := by rfl
+theorem find_enum_value : findRule G "enum_value" = some r_enum_value := by rfl
+theorem find_name : findRule G "name" = some r_name := by rfl
+theorem find_name_start : findRule G "name_start" = some r_name_start := by rfl
+theorem find_list : findRule G "list" = some r_list := by rfl
+theorem find_value : findRule G "value" = some r_value := by rfl
+theorem find_ws : findRule G "WHITESPACE" = some r_WHITESPACE := by rfl
+theorem find_comment : findRule G "COMMENT" = some r_COMMENT := by rfl
+theorem find_lt : findRule G "line_terminator" = some r_line_terminator := by rfl
+
+-- generic propagation of `oof` (out of depth) through the interpreter
+
+theorem zero_oof (c e p s) : eval G 0 c e p s = .oof := by simp [eval]
+
+theorem seq_oof_first (f c a b p s) (h : eval G f c a p s = .oof) : eval G (f + 1) c (.seq a b) p s = .oof := by
+  simp [eval, h]
+
+theorem rep_oof_first (f c a p s) (h : eval G f c a p s = .oof) : eval G (f + 1) c (.rep a) p s = .oof := by
+  simp [eval, h]
+
+theorem choice_oof_first (f c a b p s) (h : eval G f c a p s = .oof) : eval G (f + 1) c (.choice a b) p s = .oof := by
+  simp [eval, h]
+
+theorem choice_oof_second (f c a b p s) (ha : eval G f c a p s = .oof ∨ eval G f c a p s = .fail)
+    (hb : eval G f c b p s = .oof) : eval G (f + 1) c (.choice a b) p s = .oof := by
+  rcases ha with h | h <;> simp [eval, h, hb]
+
+theorem seq_oof_second (f c a b p s p1 s1 ps1) (ha : eval G f c a p s = .ok p1 s1 ps1)
+    (hs : eval G f { c with atom := .atomic } skipExpr p1 s1 = .oof ∨
+          eval G f { c with atom := .atomic } skipExpr p1 s1 = .ok p1 s1 [])
+    (hb : eval G f c b p1 s1 = .oof) : eval G (f + 1) c (.seq a b) p s = .oof := by
+  by_cases hc : c.atom = .non
+  · rcases hs with h | h <;> simp [eval, ha, hc, h, hb]
+  · simp [eval, ha, hc, hb]
+
+theorem ident_oof (f c n r p s) (hr : findRule G n = some r) (hcc : charClass n = none)
+    (h1 : n ≠ "SOI") (h2 : n ≠ "EOI") (h : eval G f (bodyCtx c r) r.expr p s = .oof) :
+    eval G (f + 1) c (.ident n) p s = .oof := by
+  simp [eval, h1, h2, hcc, hr, h]
+
+/-- the alternative `n` of `value` cannot match in front of `[`: cut off or failed, at every depth -/
+abbrev No (n : String) : Prop := ∀ (f : Nat) (c : Ctx) (p : Nat) (t : List Char),
+    eval G f c (.ident n) p ('[' :: t) = .oof ∨ eval G f c (.ident n) p ('[' :: t) = .fail
+
+set_option maxRecDepth 8000 in
+theorem no_variable : No "variable" := by
+  intro f c p t
+  rcases f with _ | _ | _ | f
+  all_goals first
+    | (left; simp [eval, find_variable, charClass, r_variable, matchStr]; done)
+    | (right; simp [eval, find_variable, charClass, r_variable, matchStr]; done)
+
+set_option maxRecDepth 8000 in
+theorem no_number : No "number" := by
+  intro f c p t
+  rcases f with _ | _ | _ | _ | _ | _ | _ | _ | _ | _ | _ | _ | _ | f
+  all_goals first
+    | (left; simp [eval, find_number, find_float, find_int, charClass, r_number, r_float, r_int, matchStr, bodyCtx, isAsciiNonzeroDigit]; done)
+    | (right; simp [eval, find_number, find_float, find_int, charClass, r_number, r_float, r_int, matchStr, bodyCtx, isAsciiNonzeroDigit]; done)
+
+set_option maxRecDepth 8000 in
+theorem no_string : No "string" := by
+  intro f c p t
+  rcases f with _ | _ | _ | _ | _ | f
+  all_goals first
+    | (left; simp [eval, find_string, charClass, r_string, matchStr]; done)
+    | (right; simp [eval, find_string, charClass, r_string, matchStr]; done)
+
+set_option maxRecDepth 8000 in
+theorem no_boolean : No "boolean" := by
+  intro f c p t
+  rcases f with _ | _ | _ | _ | f
+  all_goals first
+    | (left; simp [eval, find_boolean, charClass, r_boolean, matchStr]; done)
+    | (right; simp [eval, find_boolean, charClass, r_boolean, matchStr]; done)
+
+set_option maxRecDepth 8000 in
+theorem no_null : No "null" := by
+  intro f c p t
+  rcases f with _ | _ | _ | f
+  all_goals first
+    | (left; simp [eval, find_null, charClass, r_null, matchStr]; done)
+    | (right; simp [eval, find_null, charClass, r_null, matchStr]; done)
+
+set_option maxRecDepth 8000 in
+theorem no_enum_value : No "enum_value" := by
+  intro f c p t
+  rcases f with _ | _ | _ | _ | _ | _ | _ | _ | f
+  all_goals first
+    | (left; simp [eval, find_enum_value, find_boolean, find_null, find_name, find_name_start, charClass, r_enum_value, r_boolean, r_null, r_name, r_name_start, matchStr, bodyCtx, isAsciiAlpha]; done)
+    | (right; simp [eval, find_enum_value, find_boolean, find_null, find_name, find_name_start, charClass, r_enum_value, r_boolean, r_null, r_name, r_name_start, matchStr, bodyCtx, isAsciiAlpha]; done)
+
+set_option maxRecDepth 8000 in
+/-- `hidden::skip` in front of a bracket consumes nothing -/
+theorem skip_bracket (f : Nat) (c : Ctx) (p : Nat) (ch : Char) (t : List Char) (h : ch = '[' ∨ ch = ']') :
+    eval G f { c with atom := .atomic } skipExpr p (ch :: t) = .oof ∨
+    eval G f { c with atom := .atomic } skipExpr p (ch :: t) = .ok p (ch :: t) [] := by
+  rcases h with rfl | rfl
+  all_goals
+    rcases f with _ | _ | _ | _ | _ | _ | _ | _ | _ | _ | _ | _ | _ | f
+    all_goals first
+      | (left; simp [eval, skipExpr, find_ws, find_comment, find_lt, charClass, r_WHITESPACE, r_COMMENT, r_line_terminator, matchStr]; done)
+      | (right; simp [eval, skipExpr, find_ws, find_comment, find_lt, charClass, r_WHITESPACE, r_COMMENT, r_line_terminator, matchStr]; done)
+
+theorem rep_snoc (s : List Char) (n : Nat) : rep s (n + 1) = rep s n ++ s := by
+  induction n with
+  | zero => simp [rep]
+  | succ n ih =>
+    show s ++ rep s (n + 1) = (s ++ rep s n) ++ s
+    rw [ih, List.append_assoc]
+
+theorem nestList_succ (k : Nat) : nestList (k + 1) = '[' :: (nestList k ++ [']']) := by
+  unfold nestList
+  rw [rep_snoc [']'] k]
+  simp [rep, List.append_assoc]
+
+theorem nest_head (k : Nat) (rest : List Char) :
+    ∃ ch t, (ch = '[' ∨ ch = ']') ∧ nestList k ++ (']' :: rest) = ch :: t := by
+  cases k with
+  | zero => exact ⟨']', rest, Or.inr rfl, by simp [nestList, rep]⟩
+  | succ k => exact ⟨'[', _, Or.inl rfl, by rw [nestList_succ]; rfl⟩
+
+theorem bodyCtx_list (c : Ctx) : bodyCtx c r_list = c := by simp [bodyCtx, r_list]
+theorem bodyCtx_value (c : Ctx) : bodyCtx c r_value = c := by simp [bodyCtx, r_value]
+
+/-- On `[`ⁿ `]`ⁿ the descent from `value` is cut off at every depth up to `12·n`. -/
+theorem value_nest_oof (n : Nat) : ∀ (f : Nat) (c : Ctx) (p : Nat) (rest : List Char), f ≤ 12 * n →
+    eval G f c (.ident "value") p (nestList n ++ rest) = .oof := by
+  induction n with
+  | zero =>
+    intro f c p rest hf
+    have : f = 0 := by omega
+    subst this; exact zero_oof _ _ _ _
+  | succ k ih =>
+    intro f c p rest hf
+    have hin : nestList (k + 1) ++ rest = '[' :: (nestList k ++ (']' :: rest)) := by
+      rw [nestList_succ]; simp [List.append_assoc]
+    rw [hin]
+    generalize ht : nestList k ++ (']' :: rest) = t
+    obtain ⟨ch, t', hch, hhead⟩ := nest_head k rest
+    rw [ht] at hhead
+    -- the twelve levels between two activations of `value`
+    have L12 : ∀ fu, fu ≤ 12 * k → eval G fu c (.ident "value") (p + 1) t = .oof := by
+      intro fu h; rw [← ht]; exact ih fu c (p + 1) (']' :: rest) h
+    have L11 : ∀ fu, fu ≤ 12 * k + 1 → eval G fu c (.rep (.ident "value")) (p + 1) t = .oof := by
+      intro fu h
+      cases fu with
+      | zero => exact zero_oof _ _ _ _
+      | succ fu => exact rep_oof_first _ _ _ _ _ (L12 fu (by omega))
+    have L10 : ∀ fu, fu ≤ 12 * k + 2 →
+        eval G fu c (.seq (.rep (.ident "value")) (.str [']'])) (p + 1) t = .oof := by
+      intro fu h
+      cases fu with
+      | zero => exact zero_oof _ _ _ _
+      | succ fu => exact seq_oof_first _ _ _ _ _ _ (L11 fu (by omega))
+    have L9 : ∀ fu, fu ≤ 12 * k + 3 → eval G fu c r_list.expr p ('[' :: t) = .oof := by
+      intro fu h
+      cases fu with
+      | zero => exact zero_oof _ _ _ _
+      | succ fu =>
+        cases fu with
+        | zero => exact seq_oof_first _ _ _ _ _ _ (zero_oof _ _ _ _)
+        | succ fu =>
+          have ha : eval G (fu + 1) c (.str ['[']) p ('[' :: t) = .ok (p + 1) t [] := by
+            simp [eval, matchStr]
+          have hs := skip_bracket (fu + 1) c (p + 1) ch t' hch
+          rw [← hhead] at hs
+          exact seq_oof_second _ _ _ _ _ _ _ _ _ ha hs (L10 (fu + 1) (by omega))
+    have L8 : ∀ fu, fu ≤ 12 * k + 4 → eval G fu c (.ident "list") p ('[' :: t) = .oof := by
+      intro fu h
+      cases fu with
+      | zero => exact zero_oof _ _ _ _
+      | succ fu =>
+        refine ident_oof _ _ _ _ _ _ find_list (by decide) (by decide) (by decide) ?_
+        rw [bodyCtx_list]; exact L9 fu (by omega)
+    have L7 : ∀ fu, fu ≤ 12 * k + 5 →
+        eval G fu c (.choice (.ident "list") (.ident "object")) p ('[' :: t) = .oof := by
+      intro fu h
+      cases fu with
+      | zero => exact zero_oof _ _ _ _
+      | succ fu => exact choice_oof_first _ _ _ _ _ _ (L8 fu (by omega))
+    have L6 : ∀ fu, fu ≤ 12 * k + 6 →
+        eval G fu c (.choice (.ident "enum_value") (.choice (.ident "list") (.ident "object"))) p ('[' :: t) = .oof := by
+      intro fu h
+      cases fu with
+      | zero => exact zero_oof _ _ _ _
+      | succ fu => exact choice_oof_second _ _ _ _ _ _ (no_enum_value fu c p t) (L7 fu (by omega))
+    have L5 : ∀ fu, fu ≤ 12 * k + 7 →
+        eval G fu c (.choice (.ident "null") (.choice (.ident "enum_value") (.choice (.ident "list") (.ident "object")))) p ('[' :: t) = .oof := by
+      intro fu h
+      cases fu with
+      | zero => exact zero_oof _ _ _ _
+      | succ fu => exact choice_oof_second _ _ _ _ _ _ (no_null fu c p t) (L6 fu (by omega))
+    have L4 : ∀ fu, fu ≤ 12 * k + 8 →
+        eval G fu c (.choice (.ident "boolean") (.choice (.ident "null") (.choice (.ident "enum_value") (.choice (.ident "list") (.ident "object"))))) p ('[' :: t) = .oof := by
+      intro fu h
+      cases fu with
+      | zero => exact zero_oof _ _ _ _
+      | succ fu => exact choice_oof_second _ _ _ _ _ _ (no_boolean fu c p t) (L5 fu (by omega))
+    have L3 : ∀ fu, fu ≤ 12 * k + 9 →
+        eval G fu c (.choice (.ident "string") (.choice (.ident "boolean") (.choice (.ident "null") (.choice (.ident "enum_value") (.choice (.ident "list") (.ident "object")))))) p ('[' :: t) = .oof := by
+      intro fu h
+      cases fu with
+      | zero => exact zero_oof _ _ _ _
+      | succ fu => exact choice_oof_second _ _ _ _ _ _ (no_string fu c p t) (L4 fu (by omega))
+    have L2 : ∀ fu, fu ≤ 12 * k + 10 →
+        eval G fu c (.choice (.ident "number") (.choice (.ident "string") (.choice (.ident "boolean") (.choice (.ident "null") (.choice (.ident "enum_value") (.choice (.ident "list") (.ident "object"))))))) p ('[' :: t) = .oof := by
+      intro fu h
+      cases fu with
+      | zero => exact zero_oof _ _ _ _
+      | succ fu => exact choice_oof_second _ _ _ _ _ _ (no_number fu c p t) (L3 fu (by omega))
+    have L1 : ∀ fu, fu ≤ 12 * k + 11 → eval G fu c r_value.expr p ('[' :: t) = .oof := by
+      intro fu h
+      cases fu with
+      | zero => exact zero_oof _ _ _ _
+      | succ fu => exact choice_oof_second _ _ _ _ _ _ (no_variable fu c p t) (L2 fu (by omega))
+    cases f with
+    | zero => exact zero_oof _ _ _ _
+    | succ f =>
+      refine ident_oof _ _ _ _ _ _ find_value (by decide) (by decide) (by decide) ?_
+      rw [bodyCtx_value]; exact L1 f (by omega)
+
+end Descent
+
 end AGV.Lemmas.Hostile
